@@ -216,7 +216,7 @@ func c26Concurrent(c *verifmc.Check) {
 	c.Set("concurrent_conflict_retries", conflicts.Load())
 	c.Set("preemption_bound", bound)
 	c.Set("scenarios_with_several_outcomes", several)
-	if !verifmc.FreeRunning() && c.Violations() == 0 {
+	if !verifmc.FreeRunning() && c.Violations() == 0 && !c.Expired("concurrent part") {
 		c.Require(execs >= 100, "vacuous concurrent part: %d executions", execs)
 		// overlapping calls on a shared signer must have been produced: the
 		// unchanged code answers them with ErrConflict + retry
